@@ -194,9 +194,14 @@ def run(tier="quick", seed=0, replay=None):
                    imputer_kind="joint", loss_kind="arbitrary")
         sd = chk.rng.randrange(10 ** 9)
 
-        def scen(draws, sd=sd, cfg=cfg, N=N):
+        earlier = (0, 1, 2)[rep % 3]
+
+        def scen(draws, sd=sd, cfg=cfg, N=N, earlier=earlier):
             rig = explain.Rig(pyrandom.Random(sd), **cfg)
             data = [(rig.gen_x(), rig.gen_y()) for _ in range(N)]
+            # rows collected earlier (update_storage) are not part of the data set handed to original mode
+            for _ in range(earlier):
+                rig.ex.update_storage(rig.gen_x(), rig.gen_y())
             with warnings.catch_warnings():
                 warnings.simplefilter("ignore")
                 ret = rig.ex.explain_many_original([a for a, _ in data], [b for _, b in data], verbose=False)
@@ -232,9 +237,10 @@ def run(tier="quick", seed=0, replay=None):
                     k = pi.index(f)
                     tot += w(list(pi[:k])) - w(list(pi[:k + 1]))
                 expect[i] += tot / math.factorial(d) / N
-        desc = {"batch_original": True, "observations": N, "d": d, "seed": sd, "outcomes": nout}
+        desc = {"batch_original": True, "observations": N, "d": d, "seed": sd, "outcomes": nout, "rows_stored_earlier": earlier}
         chk.case(desc, nontrivial=True)
         chk.stat("kind:batch-original")
+        chk.stat(f"batch-original:rows_stored_earlier={earlier}")
         chk.stat("outcomes_enumerated", nout)
         for f in range(d):
             if Fraction(acc.get(f, 0)) != Fraction(expect[f]):
